@@ -6,6 +6,7 @@ import (
 	"fmt"
 	"go/token"
 	"go/types"
+	"sort"
 	"strings"
 
 	"golang.org/x/tools/go/ssa"
@@ -140,9 +141,13 @@ func (w *World) lockFlow(r *Report, fn *ssa.Function, ct *types.Named, st *types
 	visited := make([]bool, n)
 	deferred := ""
 	// forward data-flow to a fix-point (states only; reporting in a second pass)
+	stateAt := map[ssa.Instruction]lockState{}
 	transfer := func(b *ssa.BasicBlock, s lockState, report bool) lockState {
 		mapVals := map[ssa.Value]int{} // values holding the map of a mutable field -> field index
 		for _, ins := range b.Instrs {
+			if report {
+				stateAt[ins] = s
+			}
 			if k, ok := w.lockCall(ins, ct); ok {
 				if _, isDefer := ins.(*ssa.Defer); isDefer {
 					deferred = k
@@ -305,32 +310,163 @@ func (w *World) lockFlow(r *Report, fn *ssa.Function, ct *types.Named, st *types
 		}
 		transfer(b, in[b.Index], true)
 	}
+	// a decision taken inside the write-locked section must rest on what was
+	// read inside it: a capacity test evaluated under the read lock (or none)
+	// is stale by the time the write lock is held
+	for _, b := range fn.Blocks {
+		ifi := blockIf(b)
+		if ifi == nil || !visited[b.Index] || stateAt[ifi] != lsW {
+			continue
+		}
+		var stale ssa.Instruction
+		seen := map[ssa.Value]bool{}
+		var walk func(v ssa.Value, d int)
+		walk = func(v ssa.Value, d int) {
+			if v == nil || seen[v] || d > 10 {
+				return
+			}
+			seen[v] = true
+			switch x := v.(type) {
+			case *ssa.BinOp:
+				walk(x.X, d+1)
+				walk(x.Y, d+1)
+			case *ssa.Phi:
+				for _, e := range x.Edges {
+					walk(e, d+1)
+				}
+			case *ssa.Extract:
+				walk(x.Tuple, d+1)
+			case *ssa.Lookup:
+				walk(x.X, d+1)
+			case *ssa.Call:
+				if bi, ok := x.Call.Value.(*ssa.Builtin); ok && bi.Name() == "len" {
+					walk(x.Call.Args[0], d+1)
+				}
+			case *ssa.UnOp:
+				if x.Op == token.MUL {
+					if fa, ok := x.X.(*ssa.FieldAddr); ok && structOfAddr(fa) == ct && mutable[fa.Field] {
+						if st, ok := stateAt[x]; ok && st != lsW {
+							stale = x
+						}
+						return
+					}
+				}
+				walk(x.X, d+1)
+			}
+		}
+		walk(ifi.Cond, 0)
+		key := fmt.Sprintf("%s:decision", fnName(fn))
+		if stale != nil {
+			r.bad("K-LOCK", key, w.instrPos(ifi), fmt.Sprintf("a branch inside the write-locked section is decided by a value read at %s before the write lock was taken: another goroutine may have changed the map in between (the capacity can be exceeded)", w.instrPos(stale)))
+		} else {
+			r.ok("K-LOCK", key, w.instrPos(ifi), "decided by values read inside the same critical section")
+		}
+	}
 	return len(r.Obls) - before
 }
 
 // cacheGet: the method of the cache type that looks up, loads and inserts.
+// cacheGet: the method of the cache type with the shape key -> (value, error).
 func (w *World) cacheGet(ct *types.Named) *ssa.Function {
 	for _, fn := range w.AllFuncs {
-		if fn.Signature.Recv() == nil || fn.Parent() != nil {
+		if fn.Parent() != nil || fn.Signature.Recv() == nil {
 			continue
 		}
 		if typeName(fn.Signature.Recv().Type()) != ct.Obj().Name() {
 			continue
 		}
-		hasLookup, hasUpdate := false, false
-		eachInstr(fn, false, func(_ *ssa.Function, in ssa.Instruction) {
-			switch in.(type) {
-			case *ssa.Lookup:
-				hasLookup = true
-			case *ssa.MapUpdate:
-				hasUpdate = true
-			}
-		})
-		if hasLookup && hasUpdate {
+		sig := fn.Signature
+		if sig.Params().Len() == 1 && sig.Results().Len() == 2 && isEmptyIface(sig.Params().At(0).Type()) && isEmptyIface(sig.Results().At(0).Type()) && isErrorType(sig.Results().At(1).Type()) {
 			return fn
 		}
 	}
 	return nil
+}
+
+// cacheRun: get followed (absint.go) on a cache with capacity cap whose map
+// holds the given entries (tag -> tag), asked for key "K", the loader standing
+// for "returns (loaded, nil)" or, with loadFails, "returns (junk, failure)".
+type cacheRun struct {
+	Ret        AVal
+	LoaderKeys []string
+	Map        map[string]string // key tag -> value tag after the call
+	Opaque     bool
+	Cut, Panic bool
+}
+
+func (w *World) cacheRuns(ct *types.Named, st0 *types.Struct, get *ssa.Function, capacity int64, entries map[string]string, loadFails bool) []cacheRun {
+	capIdx, mapIdx, loadIdx := -1, -1, -1
+	for i := 0; i < st0.NumFields(); i++ {
+		switch u := st0.Field(i).Type().Underlying().(type) {
+		case *types.Map:
+			mapIdx = i
+		case *types.Signature:
+			loadIdx = i
+		case *types.Basic:
+			if u.Info()&types.IsInteger != 0 && !w.fieldStoredInMethods(ct, st0.Field(i)) {
+				capIdx = i // the integer configured at construction (a counter that is written is state)
+			}
+		}
+	}
+	if capIdx < 0 || mapIdx < 0 || loadIdx < 0 {
+		return nil
+	}
+	// a function of the loader's type to stand for the loader
+	var marker *ssa.Function
+	for _, fn := range w.AllFuncs {
+		if fn.Signature.Recv() == nil && types.Identical(fn.Signature, st0.Field(loadIdx).Type().Underlying()) {
+			marker = fn
+		}
+	}
+	if marker == nil {
+		return nil
+	}
+	st := w.initState()
+	c := st.newObj(ct, nil)
+	c.Extern = true
+	c.Fields[capIdx] = aInt(capacity)
+	m := st.newObj(st0.Field(mapIdx).Type(), nil)
+	m.IsMap = true
+	for k, v := range entries {
+		m.mapSet(AVal{Kind: avUnknown, Tag: k}, AVal{Kind: avUnknown, Tag: v})
+	}
+	c.Fields[mapIdx] = AVal{Kind: avPtr, Obj: m, Field: -1}
+	c.Fields[loadIdx] = AVal{Kind: avFunc, Fn: marker}
+	var hooks AHooks
+	hooks.Call = func(ai *AInterp, s2 *AState, site ssa.CallInstruction, callee *ssa.Function, args []AVal) (bool, AVal) {
+		if callee == marker && site.Common().StaticCallee() == nil {
+			s2.Trace = append(s2.Trace, AEvent{Kind: "loader", Site: site, Args: args})
+			if loadFails {
+				e := s2.newObj(nil, nil)
+				return true, AVal{Kind: avTuple, Tup: []AVal{{Kind: avUnknown, Tag: "junk"}, {Kind: avPtr, Obj: e, Field: -1, Tag: "failure"}}}
+			}
+			return true, AVal{Kind: avTuple, Tup: []AVal{{Kind: avUnknown, Tag: "loaded"}, {Kind: avNil}}}
+		}
+		return false, AVal{}
+	}
+	ai := w.newInterp(hooks)
+	var out []cacheRun
+	for _, o := range ai.Exec(get, []AVal{{Kind: avPtr, Obj: c, Field: -1}, {Kind: avUnknown, Tag: "K"}}, nil, st) {
+		cr := cacheRun{Ret: o.Ret, Cut: o.Cut, Panic: o.Panicked, Map: map[string]string{}}
+		for _, ev := range o.St.Trace {
+			if ev.Kind == "loader" && len(ev.Args) == 1 {
+				cr.LoaderKeys = append(cr.LoaderKeys, ev.Args[0].Tag)
+			}
+		}
+		// the map the cache holds now
+		mv := o.St.obj(c).Fields[mapIdx]
+		if mv.Kind == avPtr {
+			mo := o.St.obj(mv.Obj)
+			cr.Opaque = mo.Opaque || !mo.IsMap
+			for id, v := range mo.Map {
+				cr.Map[mo.Keys[id].Tag] = v.Tag
+			}
+		} else {
+			cr.Opaque = true
+		}
+		out = append(out, cr)
+	}
+	return out
 }
 
 func ruleKRest(w *World, r *Report) {
@@ -348,269 +484,131 @@ func ruleKRest(w *World, r *Report) {
 		return
 	}
 	r.FuncsAnalysed[fnName(get)] = true
-	if len(get.Params) < 2 {
-		r.bad("ANCHOR", "K-KEY", w.pos(get.Pos()), "get has no key parameter")
-		return
+	pos := w.pos(get.Pos())
+	type scen struct {
+		name      string
+		cap       int64
+		entries   map[string]string
+		loadFails bool
 	}
-	key := get.Params[1]
-	capIdx, mapIdx := -1, -1
-	for i := 0; i < st.NumFields(); i++ {
-		if _, ok := st.Field(i).Type().Underlying().(*types.Map); ok {
-			mapIdx = i
+	describe := func(cr cacheRun) string {
+		var ks []string
+		for k, v := range cr.Map {
+			ks = append(ks, k+"->"+v)
 		}
+		sort.Strings(ks)
+		return fmt.Sprintf("returns %s, loader called with %v, map now {%s}", cr.Ret.String(), cr.LoaderKeys, strings.Join(ks, ", "))
 	}
-	isMapLoad := func(v ssa.Value) bool {
-		ld, ok := v.(*ssa.UnOp)
-		if !ok || ld.Op != token.MUL {
-			return false
-		}
-		fa, ok := ld.X.(*ssa.FieldAddr)
-		return ok && structOfAddr(fa) == ct && fa.Field == mapIdx
-	}
-	// loader call
-	var loadCall *ssa.Call
-	var lookup *ssa.Lookup
-	eachInstr(get, false, func(_ *ssa.Function, in ssa.Instruction) {
-		switch x := in.(type) {
-		case *ssa.Call:
-			if ld, ok := x.Call.Value.(*ssa.UnOp); ok && ld.Op == token.MUL {
-				if fa, ok := ld.X.(*ssa.FieldAddr); ok && structOfAddr(fa) == ct {
-					loadCall = x
-				}
-			}
-		case *ssa.Lookup:
-			if isMapLoad(x.X) {
-				lookup = x
-			}
-		}
-	})
-	if loadCall == nil || lookup == nil {
-		r.bad("ANCHOR", "K-*", w.pos(get.Pos()), "loader call or lookup not found in get")
-		return
-	}
-	var loadV, loadErr ssa.Value
-	for _, u := range uses(loadCall) {
-		if ex, ok := u.(*ssa.Extract); ok {
-			if ex.Index == 0 {
-				loadV = ex
-			} else {
-				loadErr = ex
-			}
-		}
-	}
-	// K-KEY
-	chk := func(name string, v ssa.Value, in ssa.Instruction) {
-		if resolve(v) == ssa.Value(key) {
-			r.ok("K-KEY", name, w.instrPos(in), "uses the key parameter unmodified")
-		} else {
-			r.bad("K-KEY", name, w.instrPos(in), fmt.Sprintf("%s uses %s instead of the requested key: the cache can return the compilation of a different pattern", name, v))
-		}
-	}
-	chk("lookup-key", lookup.Index, lookup)
-	if len(loadCall.Call.Args) == 1 {
-		chk("load-key", loadCall.Call.Args[0], loadCall)
-	} else {
-		r.bad("K-KEY", "load-key", w.instrPos(loadCall), "loader not called with exactly the key")
-	}
-	// returns
-	for _, b := range get.Blocks {
-		ret, ok := normalReturn(b)
-		if !ok || len(ret.Results) != 2 {
-			continue
-		}
-		v := strip(retVal(ret, 0))
-		switch {
-		case isNilConst(v):
-			if loadErr != nil && sameValue(retVal(ret, 1), loadErr) {
-				r.ok("K-KEY", "return-error", w.instrPos(ret), "(nil, loader error)")
-			} else {
-				r.bad("K-KEY", "return-error", w.instrPos(ret), "nil value returned without the loader's error")
-			}
-		case loadV != nil && v == loadV:
-			r.ok("K-KEY", "return-loaded", w.instrPos(ret), "returns the value loaded for the key")
-		default:
-			if ex, ok := v.(*ssa.Extract); ok && ex.Tuple == ssa.Value(lookup) && ex.Index == 0 {
-				// must be on the found edge
-				okFound := false
-				for _, u := range uses(lookup) {
-					if e2, ok := u.(*ssa.Extract); ok && e2.Index == 1 {
-						for _, uu := range uses(e2) {
-							if ifi, ok := uu.(*ssa.If); ok {
-								t := ifi.Block().Succs[0]
-								if t == b || t.Dominates(b) {
-									okFound = true
-								}
-							}
-						}
-					}
-				}
-				if okFound {
-					r.ok("K-KEY", "return-hit", w.instrPos(ret), "returns the looked-up value on the found edge")
-				} else {
-					r.bad("K-KEY", "return-hit", w.instrPos(ret), "looked-up value returned without testing found")
-				}
-			} else {
-				r.bad("K-KEY", "return-other", w.instrPos(ret), fmt.Sprintf("get returns %s, neither the cached nor the loaded value", v))
-			}
-		}
-	}
-	// K-NEG and K-CAP
-	for i := 0; i < st.NumFields(); i++ {
-		if b, ok := st.Field(i).Type().Underlying().(*types.Basic); ok && b.Info()&types.IsInteger != 0 {
-			// capacity = the int field compared with len(map)
-			eachInstr(get, false, func(_ *ssa.Function, in ssa.Instruction) {
-				if bo, ok := in.(*ssa.BinOp); ok {
-					for _, side := range []ssa.Value{bo.X, bo.Y} {
-						if c, ok := side.(*ssa.Call); ok {
-							if bi, ok := c.Call.Value.(*ssa.Builtin); ok && bi.Name() == "len" && isMapLoad(c.Call.Args[0]) {
-								other := bo.Y
-								if side == bo.Y {
-									other = bo.X
-								}
-								if f, ok := recvFieldLoad(other); ok && f == st.Field(i) {
-									capIdx = i
-								}
-							}
-						}
-					}
-				}
-			})
-		}
-	}
-	isCapLoad := func(v ssa.Value) bool {
-		f, ok := recvFieldLoad(v)
-		return ok && capIdx >= 0 && f == st.Field(capIdx)
-	}
-	nins := 0
-	eachInstr(get, false, func(_ *ssa.Function, in ssa.Instruction) {
-		var blk *ssa.BasicBlock
-		var what string
-		grows := false
-		switch x := in.(type) {
-		case *ssa.MapUpdate:
-			if isMapLoad(x.Map) {
-				blk, what, grows = x.Block(), "insert", true
-				chk("insert-key", x.Key, x)
-				if loadV != nil && x.Value == loadV {
-					r.ok("K-KEY", "insert-value", w.instrPos(x), "inserts the loaded value")
-				} else {
-					r.bad("K-KEY", "insert-value", w.instrPos(x), "inserts something other than the value loaded for the key")
-				}
-			} else if mm, ok := x.Map.(*ssa.MakeMap); ok {
-				// fresh map that replaces the cache map
-				stored := false
-				for _, u := range uses(mm) {
-					if s, ok := u.(*ssa.Store); ok {
-						if fa, ok := s.Addr.(*ssa.FieldAddr); ok && structOfAddr(fa) == ct && fa.Field == mapIdx {
-							stored = true
-						}
-					}
-				}
-				if stored {
-					blk, what = x.Block(), "reset-literal"
-					chk("reset-key", x.Key, x)
-					if loadV != nil && x.Value == loadV {
-						r.ok("K-KEY", "reset-value", w.instrPos(x), "the replacing map holds the loaded value")
-					} else {
-						r.bad("K-KEY", "reset-value", w.instrPos(x), "the replacing map holds something other than the loaded value")
-					}
-				}
-			}
-		}
-		if blk == nil {
+	check := func(rule, key string, sc scen, good func(cr cacheRun) string, okText string) {
+		runs := w.cacheRuns(ct, st, get, sc.cap, sc.entries, sc.loadFails)
+		if len(runs) == 0 {
+			r.undec(rule, key, pos, "the cache lookup could not be followed ("+sc.name+")")
 			return
 		}
-		nins++
-		if loadErr != nil && w.underNilTest(loadErr, blk) {
-			r.ok("K-NEG", what, w.instrPos(in), "store dominated by err == nil of the loader call")
-		} else {
-			r.bad("K-NEG", what, w.instrPos(in), "the cache map is written on a path where the loader's error was not tested nil: failed loads are remembered")
-		}
-		if !grows {
-			// replacing literal: one entry; the path must have cap > 0 (cap >= 1)
-			r.ok("K-CAP", what, w.instrPos(in), "map replaced by a one-entry literal")
-			return
-		}
-		if capIdx < 0 {
-			r.bad("K-CAP", what, w.instrPos(in), "no comparison of len(map) with a capacity field guards the insertion: the cache is unbounded")
-			return
-		}
-		// every predecessor edge of blk must imply cap <= 0 or len < cap
-		okAll := len(blk.Preds) > 0
-		why := ""
-		for _, p := range blk.Preds {
-			ifi := blockIf(p)
-			if ifi == nil {
-				okAll = false
-				why = "entered by an unconditional edge"
-				continue
+		for _, cr := range runs {
+			if cr.Cut || cr.Opaque {
+				r.undec(rule, key, pos, "a path of the cache lookup could not be followed to its end ("+sc.name+")")
+				return
 			}
-			cmp, neg := decodeCond(ifi.Cond)
-			if cmp == nil {
-				okAll = false
-				why = "entered under an unrecognised condition"
-				continue
+			if cr.Panic {
+				r.bad(rule, key, pos, sc.name+": the lookup panics")
+				return
 			}
-			onTrue := p.Succs[0] == blk
-			if neg {
-				onTrue = !onTrue
-			}
-			op := cmp.Op
-			if !onTrue {
-				op = negateOp(op)
-			}
-			// now `X op Y` holds on the edge
-			x, y := cmp.X, cmp.Y
-			implied := false
-			// cap <= 0, cap < 1, 0 >= cap ...
-			if isCapLoad(x) {
-				if c, ok := constInt(y); ok && ((op == token.LEQ && c <= 0) || (op == token.LSS && c <= 1) || (op == token.EQL && c == 0)) {
-					implied = true
-				}
-			}
-			if isCapLoad(y) {
-				if c, ok := constInt(x); ok && ((op == token.GEQ && c <= 0) || (op == token.GTR && c <= 1) || (op == token.EQL && c == 0)) {
-					implied = true
-				}
-			}
-			isLen := func(v ssa.Value) bool {
-				c, ok := v.(*ssa.Call)
-				if !ok {
-					return false
-				}
-				bi, ok := c.Call.Value.(*ssa.Builtin)
-				return ok && bi.Name() == "len" && isMapLoad(c.Call.Args[0])
-			}
-			if isLen(x) && isCapLoad(y) && op == token.LSS {
-				implied = true
-			}
-			if isLen(y) && isCapLoad(x) && op == token.GTR {
-				implied = true
-			}
-			if !implied {
-				okAll = false
-				why = fmt.Sprintf("edge from block %d only guarantees `%s %s %s`, which does not imply cap <= 0 or len(m) < cap", p.Index, exprStr(x), op, exprStr(y))
-			}
-			// same critical section: no unlock between the test and the insertion
-			for _, ins := range blk.Instrs {
-				if ins == in {
-					break
-				}
-				if k, ok := w.lockCall(ins, ct); ok && strings.Contains(k, "nlock") {
-					okAll = false
-					why = "the lock is released between the capacity test and the insertion"
-				}
+			if why := good(cr); why != "" {
+				r.bad(rule, key, pos, fmt.Sprintf("%s: %s (%s)", sc.name, why, describe(cr)))
+				return
 			}
 		}
-		if okAll {
-			r.ok("K-CAP", what, w.instrPos(in), "insertion entered only when cap <= 0 or len(m) < cap, within one critical section")
-		} else {
-			r.bad("K-CAP", what, w.instrPos(in), "insertion can grow the map beyond its capacity: "+why)
-		}
-	})
-	if nins == 0 {
-		r.bad("K-NEG", "stores", w.pos(get.Pos()), "no store into the cache map found")
+		r.ok(rule, key, pos, okText)
 	}
+	retPair := func(cr cacheRun) (AVal, AVal, bool) {
+		if cr.Ret.Kind != avTuple || len(cr.Ret.Tup) != 2 {
+			return AVal{}, AVal{}, false
+		}
+		return cr.Ret.Tup[0], cr.Ret.Tup[1], true
+	}
+	miss := scen{"a miss on an empty cache with room (capacity 2)", 2, map[string]string{}, false}
+	check("K-KEY", "load-key", miss, func(cr cacheRun) string {
+		if len(cr.LoaderKeys) != 1 || cr.LoaderKeys[0] != "K" {
+			return "the loader is not called exactly once with the requested key: the cache can return the compilation of a different pattern"
+		}
+		return ""
+	}, "on a miss the loader is called once, with the requested key")
+	check("K-KEY", "return-loaded", miss, func(cr cacheRun) string {
+		v, e, ok := retPair(cr)
+		if !ok || v.Tag != "loaded" || e.Kind != avNil {
+			return "the value returned is not (the value loaded for the key, nil)"
+		}
+		return ""
+	}, "returns the value loaded for the key")
+	check("K-KEY", "insert-key", miss, func(cr cacheRun) string {
+		if len(cr.Map) != 1 || cr.Map["K"] != "loaded" {
+			return "after the miss the cache does not hold exactly the loaded value under the requested key"
+		}
+		return ""
+	}, "the loaded value is stored under the requested key")
+	hit := scen{"a hit (K cached)", 2, map[string]string{"K": "cached", "A": "a"}, false}
+	check("K-KEY", "return-hit", hit, func(cr cacheRun) string {
+		v, e, ok := retPair(cr)
+		if !ok || v.Tag != "cached" || e.Kind != avNil {
+			return "a cached key does not return its cached value"
+		}
+		if len(cr.LoaderKeys) != 0 {
+			return "the loader runs although the key is cached"
+		}
+		if len(cr.Map) != 2 || cr.Map["K"] != "cached" || cr.Map["A"] != "a" {
+			return "a hit changes the cache contents"
+		}
+		return ""
+	}, "returns the looked-up value on the found edge, without loading")
+	fail := scen{"a miss whose load fails", 2, map[string]string{"A": "a"}, true}
+	check("K-KEY", "return-error", fail, func(cr cacheRun) string {
+		v, e, ok := retPair(cr)
+		if !ok || e.Tag != "failure" {
+			return "the loader's error is not what is returned"
+		}
+		if v.Kind != avNil {
+			return "a value is returned together with the loader's error"
+		}
+		return ""
+	}, "(nil, loader error)")
+	check("K-NEG", "insert", fail, func(cr cacheRun) string {
+		if len(cr.Map) != 1 || cr.Map["A"] != "a" {
+			return "the cache map is written although the load failed: failed loads are remembered"
+		}
+		return ""
+	}, "a failed load leaves the cache as it was")
+	full := scen{"a miss on a full cache (capacity 2, 2 entries)", 2, map[string]string{"A": "a", "B": "b"}, false}
+	check("K-CAP", "insert", full, func(cr cacheRun) string {
+		if len(cr.Map) > 2 {
+			return "the map grows beyond its capacity"
+		}
+		if cr.Map["K"] != "loaded" {
+			return "the value just loaded is not cached"
+		}
+		return ""
+	}, "at capacity the insertion does not grow the map beyond the capacity")
+	full1 := scen{"a miss on a full cache (capacity 1, 1 entry)", 1, map[string]string{"A": "a"}, false}
+	check("K-CAP", "reset-literal", full1, func(cr cacheRun) string {
+		if len(cr.Map) > 1 || cr.Map["K"] != "loaded" {
+			return "the map grows beyond its capacity, or the loaded value is lost"
+		}
+		return ""
+	}, "a full cache is restarted with the new entry only")
+	room := scen{"a miss with one free slot (capacity 3, 2 entries)", 3, map[string]string{"A": "a", "B": "b"}, false}
+	check("K-CAP", "keep", room, func(cr cacheRun) string {
+		if len(cr.Map) != 3 || cr.Map["A"] != "a" || cr.Map["B"] != "b" || cr.Map["K"] != "loaded" {
+			return "with room left the cache does not simply add the new entry"
+		}
+		return ""
+	}, "below capacity entries are kept and the new one is added")
+	unb := scen{"an unbounded cache (capacity 0)", 0, map[string]string{"A": "a", "B": "b"}, false}
+	check("K-CAP", "unbounded", unb, func(cr cacheRun) string {
+		if cr.Map["K"] != "loaded" {
+			return "the loaded value is not cached"
+		}
+		return ""
+	}, "capacity <= 0 means no bound; the value is cached")
 
 	// getRegexp-like: package functions that call get with a string parameter as key
 	for _, fn := range w.AllFuncs {
@@ -654,7 +652,7 @@ func ruleKRest(w *World, r *Report) {
 	}
 	// the loader installed for the package-level cache compiles its key
 	for _, fn := range w.AllFuncs {
-		if fn.Parent() == nil || len(fn.Params) != 1 || fn.Signature.Results().Len() != 2 {
+		if !isLoaderShaped(fn) {
 			continue
 		}
 		eachInstr(fn, false, func(_ *ssa.Function, in ssa.Instruction) {
@@ -1025,4 +1023,22 @@ func (w *World) constQueryBase(v ssa.Value) ssa.Value {
 		return nil
 	}
 	return resolve(ta2.X)
+}
+
+// fieldStoredInMethods: some method of named type nt stores to field f.
+func (w *World) fieldStoredInMethods(nt *types.Named, f *types.Var) bool {
+	found := false
+	for _, fn := range w.AllFuncs {
+		if fn.Signature.Recv() == nil || typeName(fn.Signature.Recv().Type()) != nt.Obj().Name() {
+			continue
+		}
+		eachInstr(fn, true, func(_ *ssa.Function, in ssa.Instruction) {
+			if st, ok := in.(*ssa.Store); ok {
+				if fa, ok := st.Addr.(*ssa.FieldAddr); ok && fieldOfAddr(fa) == f {
+					found = true
+				}
+			}
+		})
+	}
+	return found
 }
